@@ -92,6 +92,42 @@ def pform(rng, codec):
         s = rng.randrange(1, body + 1); sizes.append(s); body -= s
     return [2, x, sizes]
 
+# ---- FLV producer: NAL units -> real flv.Muxer/packetizers -> real FlvCache (block added by the C02 proof worker) ----
+def prod_unit(rng, hevc, t, size):
+    if hevc:
+        return bytes([(t << 1) | rng.randrange(2), rng.randrange(1, 8)]) + rb(rng, max(0, size - 2))
+    return bytes([(rng.randrange(4) << 5) | t]) + rb(rng, max(0, size - 1))
+
+def prod_case(rng, hevc, aac, types, sizes):
+    frames, ms = [], rng.choice([0, 0, 1000, 4294967000])
+    for t, n in zip(types, sizes):
+        dts = ms * 1000000 + rng.randrange(1000000)
+        frames.append([0, dts, dts + rng.choice([0, 0, 40, 80]) * 1000000, prod_unit(rng, hevc, t, n)])
+        if aac and rng.random() < 0.4:
+            frames.append([1, dts, dts + rng.randrange(20) * 1000000, rb(rng, rng.randrange(1, 9))])
+        ms += rng.choice([33, 40, 40, 0])
+    return [1 if hevc else 0, 1 if aac else 0, frames]
+
+def producer_stream(ck):
+    rng = ck.rng
+    cases = []
+    for hevc in (False, True):
+        key, plain = ((19, 1) if hevc else (5, 1))
+        for t in range(64 if hevc else 32):        # every NAL type after an IDR GOP: does the GOP restart there?
+            for n in ((1, 2, 30) if ck.thorough else (rng.choice([1, 2, 3]), rng.choice([6, 30, 200]))):
+                types = [key, plain, plain, t, plain, plain]
+                cases.append(prod_case(rng, hevc, rng.random() < 0.4, types, [12, 9, 9, max(n, 2 if hevc else 1), 9, 9]))
+            cases.append(prod_case(rng, hevc, False, [t, plain], [8, 8]))      # the stream starts on that type
+    for _ in range(2000 if ck.thorough else 60):   # random frame sequences
+        hevc = rng.random() < 0.5
+        pool = [16, 17, 18, 19, 20, 21, 21, 1, 1, 1, 0, 9, 22, 15, 32, 33, 34, 39] if hevc else [5, 5, 1, 1, 1, 6, 7, 8, 9, 2]
+        k = rng.randrange(1, 14)
+        cases.append(prod_case(rng, hevc, rng.random() < 0.5,
+                               [rng.choice(pool + [rng.randrange(64 if hevc else 32)]) for _ in range(k)],
+                               [rng.choice([2, 3, 5, 40, 300]) for _ in range(k)]))
+    ck.stream("flv-producer", cases, "C02_flv_producer", "flv_producer", "C02_flv_producer_ok",
+              nontrivial=lambda c: len(c[2]) >= 2, sig=lambda c, e, o: "flv-producer")
+
 def run(ck):
     if not ck.prepare():
         return ck.finish(rule="build failed")
@@ -133,6 +169,7 @@ def run(ck):
                         note="aggregation packet carrying parameter sets and an IDR/IRAP unit is stored as a parameter "
                              "set: the GOP cache does not start there")
     ck.extra["packetisations_wellformed"] = wf
+    producer_stream(ck)
     cases = []
     for _ in range(40 if ck.thorough else 2):
         for flv, h265 in ((False, False), (True, False), (False, True)):
@@ -149,6 +186,8 @@ def run(ck):
     return ck.finish(rule="(1) random RTP payloads (single NAL, STAP/AP incl. truncated and zero-size entries, FU with all S/E bits, garbage, "
                           "non-video channels) and FLV tags (full frame-type/codec nibbles, near-miss onMetaData) through the real "
                           "H264Cache/HevcCache/FlvCache CachePack+PushTo; (2) legal packetisations produced by the Gallina packetiser; "
+                          "(2b) NAL units of every type (H.264 0..31, H.265 0..63; after an IDR GOP and as first frame; random sequences, with and without AAC) "
+                          "through the real flv.Muxer/packetizers into a real FlvCache: kinds, timestamps and PushTo against the composition C08 packetizer model + FLV cache model; "
                           "(3) frame sequences (SPS/PPS, key starts, video, audio) published through WriteRtpPacket on a real H.264 or H.265 "
                           "media.Stream, and FLV tags through WriteFlvTag to FLV consumers; a recording consumer joins after every prefix length, GOP cache on and off, and "
                           "in every interleaving of the three attach steps with the three publish steps of the next packet")
